@@ -2,6 +2,8 @@
 # Applies each kept seeded change to /repo (working tree only, never committed), runs the property's quick check,
 # reverts, and records which obligation reports it. Output: seeded/RESULTS.tsv
 cd /verif
+# evidence files are rewritten by every check run: keep the ones of the unchanged tree, not of the seeded runs
+rm -rf /tmp/verif_evidence_keep && cp -r evidence /tmp/verif_evidence_keep
 : > seeded/RESULTS.tsv
 for d in seeded/C*-*; do
   pid=$(basename $d | cut -d- -f1)
@@ -13,5 +15,6 @@ for d in seeded/C*-*; do
   viol=$(echo "$out" | grep "^VIOLATION" | sed 's/.*obligation=//' | tr '\n' ';' | cut -c1-400)
   echo -e "$(basename $d)\texit=$rc\t$viol" >> seeded/RESULTS.tsv
 done
+rm -rf evidence && cp -r /tmp/verif_evidence_keep evidence && rm -rf /tmp/verif_evidence_keep
 git -C /repo status --short | head -3
 cat seeded/RESULTS.tsv
